@@ -1,7 +1,7 @@
 (* C10 -- little-endian fields, struct.pack / unpack round trip, the staging buffer built by the packing loop *)
 From Coq Require Import ZArith List Bool Lia.
 Require Import Rig.Model.Base Rig.Generated.GenRouter Rig.Model.Tables Rig.Model.Router.
-Require Import Rig.Proofs.RouterWord.
+Require Import Rig.Spec.Router Rig.Proofs.RouterWord.
 Import ListNotations.
 Open Scope Z_scope.
 
@@ -114,9 +114,6 @@ Qed.
 (* ------------------------------------------------------------------------------------------------ *)
 (** * one record *)
 
-Definition entry_ok (e : entry) : Prop :=
-  (forall r, In r (e_route e) -> 0 <= r < 24) /\ 0 <= e_key e < 2 ^ 32 /\ 0 <= e_mask e < 2 ^ 32.
-
 (* the 16 bytes of record i *)
 Definition rec_bytes (i : Z) (e : entry) : list Z :=
   le_bytes 2 i ++ le_bytes 2 0 ++ le_bytes 4 (route_word (e_route e)) ++ le_bytes 4 (e_key e)
@@ -210,21 +207,21 @@ Proof.
   induction es as [|e es IH]; intros i pre Hi Hn Hok Hpre.
   - simpl. reflexivity.
   - inversion Hok as [|? ? He Hes]; subst.
-    simpl pack_loop.
+    cbn [pack_loop].
     assert (Hneg : existsb (fun r => r <? 0) (e_route e) = false).
     { destruct He as [Hr _]. apply not_true_is_false. intros Hx.
       apply existsb_exists in Hx. destruct Hx as [r [Hin Hlt]]. apply Hr in Hin. lia. }
     rewrite Hneg.
-    unfold len in Hn. simpl length in Hn. rewrite Nat2Z.inj_succ in Hn.
+    unfold len in Hn. cbn [length] in Hn. rewrite Nat2Z.inj_succ in Hn.
     rewrite pack_record by (try assumption; lia).
-    replace (16 * length (e :: es))%nat with (16 + 16 * length es)%nat by (simpl; lia).
+    replace (16 * length (e :: es))%nat with (16 + 16 * length es)%nat by (cbn [length]; lia).
     rewrite repeat_app.
     replace 16%nat with (length (rec_bytes i e)) at 1 by apply rec_bytes_length.
     rewrite write_at_middle by (unfold lrte_rec_offset; lia).
     replace (pre ++ rec_bytes i e ++ repeat 0 (16 * length es))
       with ((pre ++ rec_bytes i e) ++ repeat 0 (16 * length es)) by (rewrite app_assoc; reflexivity).
     rewrite IH.
-    + simpl. rewrite app_assoc. reflexivity.
+    + cbn [recs_from concat]. rewrite app_assoc. reflexivity.
     + lia.
     + unfold len. lia.
     + assumption.
